@@ -440,6 +440,23 @@ pub fn battery(rng: &mut Rng, kind: Kind, bits: &Bits, dbg: bool) -> Vec<Step> {
         b.push(Step::new("prepend").yb(Kind::D, vec![1, 0, 0]));
         b.push(Step::new("insert").yb(Kind::A, vec![0, 1]).a(Args { i: Some(n / 2), ..Default::default() }));
     }
+    // the subject as the RIGHT operand of operations on a fresh, longer left operand
+    for (zi, zk) in [kind, Kind::D, Kind::A].iter().copied().enumerate() {
+        for extra in [0usize, 3, 70, 130] {
+            if !zk.admits(n + extra) || (zi > 0 && zk == kind) {
+                continue;
+            }
+            for i in 0..12 {
+                if i == 11 && (n > 130 || bits.iter().all(|b| *b == 0)) {
+                    continue; // div_rem: not by zero, not on long operands
+                }
+                if !rng.chance(1, 2) && extra != 70 {
+                    continue;
+                }
+                b.push(Step::new("rop").a(Args { tk: Some(zk), n: Some(extra as u128), i: Some(i), ..Default::default() }));
+            }
+        }
+    }
     b.push(Step::new("add").f("rr").yi(IntTy::U8, 0));
     b.push(Step::new("add").f("av").yb(Kind::D, ones(n.min(200))));
     b.push(Step::new("sub").f("ar").yi(IntTy::U64, 1));
